@@ -73,6 +73,15 @@ def gen(ctx):
             nd = len(docs)
             for _ in range(rng.randrange(3, 9)):
                 ops.append("s0:%d" % rng.choice([nd - 4, nd - 3, nd - 4, nd - 3, nd - 2, nd - 1]))
+        if rng.random() < 0.5:
+            # a compile that FAILS half-way through a token (unclosed quoted identifier / raw string / literal, bad escape, bad JSON) followed at once
+            # by compiles and searches of expressions with quoted tokens: nothing of the failed attempt may leak into the next one
+            for _k in range(rng.randrange(1, 4)):
+                bad = rng.choice(['foo."bar', "'abc", "`[1,2", 'a."', "x.'y", '`"u', '"a\\x"', "`{\"k\": }`", "'a\\'", '"\\ud800"', "a.b.'unclosed raw", 'length("q'])
+                good = rng.choice(['"a"', "'x'", '`"y"`', '"a".b', "{k: 'v', j: `1`}", "[?\"a\" == 'x']", "length('abc')", '"a" || \'d\'', "`[1, 2]`[0]", '@."a"'])
+                j = rng.randrange(0, 4)
+                ops += ["c%d:%s" % (rng.randrange(0, 4), C.hexs(bad)), "c%d:%s" % (j, C.hexs(good)), "s%d:%d" % (j, rng.randrange(0, len(docs))),
+                        "c%d:%s" % (j, C.hexs(good)), "s%d:%d" % (j, rng.randrange(0, len(docs)))]
         for _ in range(rng.randrange(5, 26) if not ops else rng.randrange(0, 6)):
             r = rng.random()
             k = rng.randrange(0, 4)
